@@ -48,7 +48,7 @@ Definition enc (o : outcome) : Z * Z * list Z :=
 def plan(ctx):
     if ctx.tier == "quick":
         return 6, 8
-    return 60, 14
+    return 120, 14
 
 
 def gen_trials(ctx, nsc, per, tag="sc"):
